@@ -70,8 +70,8 @@ def make_taint(W):
             return True
         if n == "sign" and ("Signer" in p or "MsgSigner" in p or "SigningKey" in p):
             return True
-        if n in ("finish",) and "digest" in p:
-            return True
+        # (a digest of secret material is NOT declassified: SHA-512(seed) is the Ed25519 private scalar and prefix; a one-way function of a secret
+        #  is only harmless when the secret has enough entropy left after everything else that is known, which is not a structural fact)
         if n.startswith("seal_in_place") or n == "encrypt_dek" or n == "encrypt_seed":
             return True
         if n in ("from_seed", "new") and ("MsgSigner" in p or "LongTermKey" in p or "OnlineKey" in p or "Responder" in p or "UnboundKey" in p or "LessSafeKey" in p):
